@@ -115,16 +115,36 @@ def run(ctx: Ctx) -> None:
     ctx.floor("C15.CFG-LEVEL", n, 4)
     n = rule_arity(ctx)
     ctx.floor("C15.ARITY", n, 15)
+    from ..rules_sm import rule_step_key
+
+    ctx.floor("C15.STEP-KEY(functions)", rule_step_key(ctx, "C15.STEP-KEY"), 40)
 
     # ---- read_multiscale_params / pandora.run
     rm = tree.func(CC, "read_multiscale_params")
     p0 = rm.args.args[0].arg
     top = [s for s in stmts_of(rm) if isinstance(s, ast.If)]
-    okt = bool(top) and equivalent(boolform(top[0].test), boolform(_e(f"'multiscale' in {p0}['pipeline']"))) is None
-    ctx.ob("C15.CFG-LEVEL", CC, top[0] if top else rm, f"read_multiscale_params: if {src(top[0].test) if top else '?'}", okt, expected=f"'multiscale' in {p0}['pipeline']", detail="the multiscale step lives in the pipeline section")
+    dm = Defs(rm)
+    # the multiscale step is selected among the keys of the *pipeline* section, by its family name (any suffix);
+    # the exact-key form `'multiscale' in cfg['pipeline']` is at the right level too (C15.STEP-KEY reports it)
+    sel_name, sel_ok, sel_txt = None, False, "?"
+    for name, ds in dm.defs.items():
+        for st, val, pos in ds:
+            if isinstance(val, (ast.ListComp, ast.GeneratorExp)) and len(val.generators) == 1 and isinstance(val.generators[0].target, ast.Name):
+                g = val.generators[0]
+                v = g.target.id
+                sel_name, sel_txt = name, src(val)
+                sel_ok = canon(g.iter) == f"{p0}['pipeline']" and canon(val.elt) == v and len(g.ifs) == 1 and equivalent(boolform(g.ifs[0]), boolform(_e(f"{v}.split('.')[0] == 'multiscale'"))) is None
     inst = [c for c in calls_in(rm) if (dotted(c.func) or "").endswith("AbstractMultiscale")]
-    oki = len(inst) == 1 and any(k.arg is None and canon(k.value) == f"{p0}['pipeline']['multiscale']" for k in inst[0].keywords)
-    ctx.ob("C15.CFG-LEVEL", CC, inst[0] if inst else rm, f"read_multiscale_params: {src(inst[0])[:110] if inst else '?'}", oki, expected=f"AbstractMultiscale(left, right, **{p0}['pipeline']['multiscale'])")
+    if sel_name is not None:
+        okt = sel_ok and bool(top) and canon(top[0].test) in (sel_name, f"{{[-len({sel_name})]<0}}", f"{{!([len({sel_name})]==0)}}")
+        ctx.ob("C15.CFG-LEVEL", CC, top[0] if top else rm, f"read_multiscale_params: {sel_name} = {sel_txt[:110]}; if {src(top[0].test) if top else '?'}", okt, expected=f"[step for step in {p0}['pipeline'] if step.split('.')[0] == 'multiscale'], tested for emptiness", detail="the multiscale step lives in the pipeline section and is recognised by the part of its name before the dot")
+        oki = len(inst) == 1 and any(k.arg is None and canon(k.value) == f"{p0}['pipeline'][{sel_name}[0]]" for k in inst[0].keywords)
+        ctx.ob("C15.CFG-LEVEL", CC, inst[0] if inst else rm, f"read_multiscale_params: {src(inst[0])[:110] if inst else '?'}", oki, expected=f"AbstractMultiscale(left, right, **{p0}['pipeline'][{sel_name}[0]])")
+    else:
+        okt = bool(top) and equivalent(boolform(top[0].test), boolform(_e(f"'multiscale' in {p0}['pipeline']"))) is None
+        ctx.ob("C15.CFG-LEVEL", CC, top[0] if top else rm, f"read_multiscale_params: if {src(top[0].test) if top else '?'}", okt, expected=f"'multiscale' in {p0}['pipeline']", detail="the multiscale step lives in the pipeline section")
+        oki = len(inst) == 1 and any(k.arg is None and canon(k.value) == f"{p0}['pipeline']['multiscale']" for k in inst[0].keywords)
+        ctx.ob("C15.CFG-LEVEL", CC, inst[0] if inst else rm, f"read_multiscale_params: {src(inst[0])[:110] if inst else '?'}", oki, expected=f"AbstractMultiscale(left, right, **{p0}['pipeline']['multiscale'])")
     rets = [r for r in walk_no_nested(rm) if isinstance(r, ast.Return)]
     d = Defs(rm)
     okr = bool(rets) and isinstance(rets[0].value, ast.Tuple) and [canon(e) for e in rets[0].value.elts] == ["num_scales", "scale_factor"]
@@ -301,7 +321,8 @@ SPEC = PropSpec(
 )
 
 MUTANTS = [
-    {"id": "lookup-top-level-again", "file": CC, "old": 'if "multiscale" in cfg["pipeline"]:', "new": 'if "multiscale" in cfg:'},
+    {"id": "multiscale-looked-up-by-bare-name", "file": "pandora/check_configuration.py", "old": '    multiscale_steps = [step for step in cfg["pipeline"] if step.split(".")[0] == "multiscale"]\n    if multiscale_steps:\n', "new": '    multiscale_steps = ["multiscale"] if "multiscale" in cfg["pipeline"] else []\n    if multiscale_steps:\n'},
+    {"id": "multiscale-selected-at-top-level", "file": "pandora/check_configuration.py", "old": '    multiscale_steps = [step for step in cfg["pipeline"] if step.split(".")[0] == "multiscale"]\n', "new": '    multiscale_steps = [step for step in cfg if step.split(".")[0] == "multiscale"]\n'},
     {"id": "drop-reverse", "file": IMG, "old": "return pyramid_left[::-1], pyramid_right[::-1]", "new": "return pyramid_left, pyramid_right"},
     {"id": "exponent-minus-one", "file": SM, "old": 'self.disp_min = left_img["disparity"].sel(band_disp="min") / (self.scale_factor**self.num_scales)', "new": 'self.disp_min = left_img["disparity"].sel(band_disp="min") / (self.scale_factor ** (self.num_scales - 1))'},
     {"id": "floor-division", "file": SM, "old": 'self.disp_max = left_img["disparity"].sel(band_disp="max") / (self.scale_factor**self.num_scales)', "new": 'self.disp_max = left_img["disparity"].sel(band_disp="max") // (self.scale_factor**self.num_scales)'},
@@ -311,7 +332,7 @@ MUTANTS = [
     {"id": "pyramid-args-swapped", "file": SM, "old": "left_img, right_img, self.num_scales, scale_factor\n", "new": "left_img, right_img, scale_factor, self.num_scales\n"},
     {"id": "drop-copy-fill-nodata", "file": IMG, "old": '            img = dataset["im"].data.copy()\n            msk = dataset["msk"].data.copy()', "new": '            img = dataset["im"].data\n            msk = dataset["msk"].data'},
     {"id": "pop-last", "file": SM, "old": "        self.left_img = self.img_left_pyramid.pop(0)\n        self.right_img = self.img_right_pyramid.pop(0)\n\n        # Update the current scale for the next state", "new": "        self.left_img = self.img_left_pyramid.pop()\n        self.right_img = self.img_right_pyramid.pop()\n\n        # Update the current scale for the next state"},
-    {"id": "multiscale-without-images", "file": CC, "old": "        multiscale_ = multiscale.AbstractMultiscale(\n            left_img, right_img, **cfg[\"pipeline\"][\"multiscale\"]\n        )  # type: ignore", "new": "        multiscale_ = multiscale.AbstractMultiscale(**cfg[\"pipeline\"][\"multiscale\"])  # type: ignore"},
+    {"id": "multiscale-without-images", "file": CC, "old": "        multiscale_ = multiscale.AbstractMultiscale(\n            left_img, right_img, **cfg[\"pipeline\"][multiscale_steps[0]]\n        )  # type: ignore", "new": "        multiscale_ = multiscale.AbstractMultiscale(**cfg[\"pipeline\"][multiscale_steps[0]])  # type: ignore"},
     {"id": "invalid-list-without-8-9", "file": MS, "old": "            if val & cst.PANDORA_MSK_PIXEL_INVALID != 0:", "new": "            if val & (cst.PANDORA_MSK_PIXEL_LEFT_NODATA_OR_BORDER | cst.PANDORA_MSK_PIXEL_RIGHT_NODATA_OR_DISPARITY_RANGE_MISSING | cst.PANDORA_MSK_PIXEL_IN_VALIDITY_MASK_LEFT | cst.PANDORA_MSK_PIXEL_IN_VALIDITY_MASK_RIGHT) != 0:"},
     {"id": "band-coordinate-typo", "file": IMG, "old": '"band_im": list(img_orig.band_im.data),', "new": '"band_im": list(img_orig.band.data),'},
     {"id": "level0-not-original", "file": IMG, "old": "        if index == 0:\n            pyramid.append(img_orig)\n            continue\n", "new": ""},
